@@ -796,3 +796,11 @@ def x12(cx: Cx, ob: Ob) -> None:
     from ..rules import package_lints
 
     package_lints(cx, ob, {'api.py', 'triples.py'})
+
+
+@obligation("C15-X6", "LOOKUP None-discipline (shared with C02-D3): validation against a converter goes through standardize_prefix, whose lookup result is tested with `is None`, never by truthiness - the empty prefix '' (rdflib's default namespace) is a registered prefix like any other and references under it must validate", floor=40)
+def x6(cx: Cx, ob: Ob) -> None:
+    from ..rules import scan_none_discipline
+    from .c02 import none_scope
+
+    scan_none_discipline(cx, ob, none_scope(cx))
